@@ -210,6 +210,7 @@ def lake_env():
 def lean_build(targets):
     """lake build of the given targets; returns (ok, output)"""
     with Lock("lake"):
+        run([sys.executable, os.path.join(VERIF, "tools/gen_main.py")])
         p = run(["lake", "build"] + list(targets), cwd=LEAN, env=lake_env())
     return p.returncode == 0, p.stdout + p.stderr
 
